@@ -5,6 +5,20 @@ COMMON_NOTE = ("Trusted base: Lean 4.33 kernel; axioms ⊆ {propext, Classical.c
                "generated tables (harness/gen_tables.py). ")
 
 CLAIMED = {
+    "C17": {
+        "text": "Theorems (Lean, over arbitrary strings): resolve_inside — any path the resolver accepts ('..', '.', empty components, doubled "
+                "slashes, absolute-looking input) has the root as a COMPONENT-WISE prefix; resolve_clean — the accepted path is canonical, so "
+                "what is opened is what was checked; abs_is_relative — '/etc/passwd' is resolved under the root, never honoured as a system "
+                "path; arrow_inside — both branches of the read path end inside; string_prefix_is_wrong — witness that a string-prefix test "
+                "admits the sibling /wh2 for /wh. Tie: _resolve_path vs the lexical model on an exhaustive component grammar (symlink-free). "
+                "Oracle on a REAL filesystem with symlinks inside the root pointing inside and outside, a sibling-prefix directory and the root "
+                "reached directly or through a symlink: exhaustive path grammar × 15 read + 5 mutating entry points under a Python audit hook "
+                "(every open / listdir / remove / rename / mkdir resolved with realpath) + fingerprint of a sentinel tree outside the root.",
+        "design_ref": "§6 C17",
+        "note": "Symlink resolution (os.path.realpath / the kernel's walk) is an assumed contract exercised on the real filesystem, not modelled; "
+                "TOCTOU is outside the quantifier; the S3 backend has no filesystem paths.",
+        "technique": "Lean 4 theorems on lexical path resolution + exhaustive real-filesystem sweep with an audit hook",
+    },
     "C03": {
         "text": "Theorems (Lean; process death = any prefix of the operation's syscall trace, for a commit writing ANY number of files): "
                 "crash_pre — before the pointer's rename the pointer path is unchanged (pre-state); crash_foreign_untouched — at every prefix "
